@@ -333,6 +333,194 @@ def handle_partials(c):
             'kind': 'partials ' + ('colored' if col is not None else 'nocoloring')}
 
 
+# ------------------------------------------------------------------------------------ call histories
+
+def _lin2(A, n1, m1):
+    """y1, y2 = blocks of A @ [x1; x2]; f = first row of A (scalar objective)"""
+    A = np.array(A, dtype=float)
+    nr, nc = A.shape
+
+    class Lin2(om.ExplicitComponent):
+        def setup(self):
+            self.add_input('x1', np.ones(n1))
+            self.add_input('x2', np.ones(nc - n1))
+            self.add_output('f', 0.0)
+            self.add_output('y1', np.zeros(m1))
+            self.add_output('y2', np.zeros(nr - 1 - m1))
+            for oname, r0, r1 in (('f', 0, 1), ('y1', 1, 1 + m1), ('y2', 1 + m1, nr)):
+                for iname, c0, c1 in (('x1', 0, n1), ('x2', n1, nc)):
+                    blk = A[r0:r1, c0:c1]
+                    r, c = np.nonzero(blk)
+                    if r.size:
+                        self.declare_partials(oname, iname, rows=r, cols=c, val=blk[r, c])
+
+        def compute(self, i, o):
+            x = np.concatenate([i['x1'], i['x2']])
+            y = A @ x
+            o['f'] = y[0]
+            o['y1'] = y[1:1 + m1]
+            o['y2'] = y[1 + m1:]
+
+        def compute_partials(self, i, p):
+            pass
+    return Lin2()
+
+
+def _hist_problem(c, colored):
+    p = om.Problem()
+    p.model.add_subsystem('c', _lin2(c['A'], c['n1'], c['m1']), promotes=['*'])
+    p.model.add_design_var('x1', scaler=c.get('s1'))
+    p.model.add_design_var('x2')
+    p.model.add_objective('f')
+    p.model.add_constraint('y1', upper=1000.)
+    p.model.add_constraint('y2', upper=1000., scaler=c.get('s2'))
+    p.driver = om.ScipyOptimizeDriver()
+    if colored:
+        p.driver.declare_coloring(direct=bool(c['direct']), show_summary=False, show_sparsity=False,
+                                  num_full_jacs=1, tol=1e-20, min_improve_pct=0.)
+    p.setup(mode=c['mode'])
+    p.run_model()
+    return p
+
+
+def handle_totals_hist(c):
+    """driver-order compute_totals (computes and caches the driver's colouring), then calls with custom /
+    reordered / subset of and wrt lists: every call must equal the uncoloured problem's answer"""
+    pc, pu = _hist_problem(c, True), _hist_problem(c, False)
+    bad = []
+    used = False
+    for k, call in enumerate(c['calls']):
+        kw = {}
+        if call['of'] is not None:
+            kw['of'] = call['of']
+        if call['wrt'] is not None:
+            kw['wrt'] = call['wrt']
+        kw['driver_scaling'] = bool(call.get('ds'))
+        kw['return_format'] = 'flat_dict'
+        ju = pu.compute_totals(**kw)
+        try:
+            jc = pc.compute_totals(**kw)
+        except Exception as e:      # noqa
+            bad.append('call %d compute_totals(%s) with a cached driver colouring raised %s: %s' % (
+                k, call, type(e).__name__, str(e)[:120]))
+            break
+        if k == 0:
+            col = pc.driver._coloring_info.coloring
+            used = col is not None
+        for key in ju:
+            if key not in jc or not np.array_equal(np.asarray(ju[key]), np.asarray(jc[key])):
+                bad.append('call %d compute_totals(of=%s, wrt=%s, driver_scaling=%s) after the driver-order call: '
+                           'd%s/d%s coloured %s, uncoloured %s' % (
+                               k, call['of'], call['wrt'], kw['driver_scaling'], key[0], key[1],
+                               np.asarray(jc.get(key)).tolist(), np.asarray(ju[key]).tolist()))
+                break
+        if bad:
+            break
+    return {'res': '__none__', 'ok': not bad, 'msg': '; '.join(bad)[:1500], 'sig': 'totals-call-history',
+            'kind': 'totals history ' + ('colored' if used else 'nocoloring')}
+
+
+EXPRS = {
+    'sq': ['y = a*x**2 + w*x'],
+    'two': ['y = x**2 + 3.*z', 'v = x*w'],
+    'cube': ['y = x*w + z**3'],
+    'rev': ['y = x[::-1]*w + x**2'],
+}
+EXPR_VARS = {'sq': (['x', 'w', 'a'], ['y']), 'two': (['x', 'w', 'z'], ['y', 'v']),
+             'cube': (['x', 'w', 'z'], ['y']), 'rev': (['x', 'w'], ['y'])}
+
+
+def close(a, b, rtol):
+    a, b = np.asarray(a, dtype=float), np.asarray(b, dtype=float)
+    return a.shape == b.shape and bool(np.all(np.abs(a - b) <= rtol * np.maximum(1.0, np.abs(b))))
+
+
+def handle_execcomp(c):
+    """ExecComp with its built-in partial colouring: sparsity sampled at a point where inputs are exactly 0,
+    then re-linearised elsewhere; must agree with do_coloring=False at every point"""
+    n = c['n']
+    ins, outs = EXPR_VARS[c['expr']]
+
+    def build(do_coloring):
+        kw = {v: np.zeros(n) for v in ins + outs}
+        p = om.Problem()
+        p.model.add_subsystem('c', om.ExecComp(EXPRS[c['expr']], do_coloring=do_coloring, **kw),
+                              promotes=['*'])
+        p.setup()
+        return p
+    pc, pu = build(True), build(False)
+    bad = []
+    for k, pt in enumerate(c['points']):
+        js = []
+        for p in (pc, pu):
+            for v in ins:
+                p.set_val(v, np.array(pt[v], dtype=float))
+            p.run_model()
+            js.append(p.compute_totals(of=outs, wrt=ins, return_format='flat_dict'))
+        for key in js[1]:
+            if not close(js[0][key], js[1][key], 1e-12):
+                bad.append('point %d %s: d%s/d%s with built-in colouring %s, with do_coloring=False %s' % (
+                    k, {v: pt[v] for v in ins}, key[0], key[1], np.asarray(js[0][key]).tolist(),
+                    np.asarray(js[1][key]).tolist()))
+                break
+        if bad:
+            break
+    col = pc.model.c._coloring_info.coloring
+    return {'res': '__none__', 'ok': not bad, 'msg': '; '.join(bad)[:1500], 'sig': 'execcomp-coloring-degenerate-point',
+            'kind': 'execcomp ' + c['expr'] + (' colored' if col is not None else ' nocoloring')}
+
+
+def handle_nlcomp(c):
+    """component with declare_coloring on approximated (cs / fd) partials whose sparsity is sampled at a
+    degenerate point (zero inputs, vanishing derivatives), re-linearised elsewhere"""
+    B = np.array(c['B'], dtype=float)
+    C = np.array(c['C'], dtype=float)
+    nr, nc = B.shape
+    method = c['method']
+
+    def build(colored):
+        class NL(om.ExplicitComponent):
+            def setup(self):
+                self.add_input('x', np.zeros(nc))
+                self.add_input('w', np.zeros(nc))
+                self.add_output('y', np.zeros(nr))
+                self.declare_partials('y', ['x', 'w'], method=method)
+                if colored:
+                    # fd cannot resolve products of two 1e-9 perturbations (the default perturb_size), which is
+                    # a limit of sampling, not of the colouring: give fd a perturbation it can see
+                    extra = {'perturb_size': 1e-2} if method == 'fd' else {}
+                    self.declare_coloring(wrt='*', method=method, num_full_jacs=2, tol=1e-20,
+                                          min_improve_pct=0., show_summary=False, show_sparsity=False, **extra)
+
+            def compute(self, i, o):
+                o['y'] = B @ (i['x'] ** 2) + C @ (i['x'] * i['w'])
+        p = om.Problem()
+        p.model.add_subsystem('c', NL(), promotes=['*'])
+        p.setup(force_alloc_complex=(method == 'cs'))
+        return p
+    pc, pu = build(True), build(False)
+    bad = []
+    rtol = 1e-12 if method == 'cs' else 1e-7
+    for k, pt in enumerate(c['points']):
+        js = []
+        for p in (pc, pu):
+            p.set_val('x', np.array(pt['x'], dtype=float))
+            p.set_val('w', np.array(pt['w'], dtype=float))
+            p.run_model()
+            js.append(p.compute_totals(of=['y'], wrt=['x', 'w'], return_format='flat_dict'))
+        for key in js[1]:
+            if not close(js[0][key], js[1][key], rtol):
+                bad.append('point %d %s: d%s/d%s with declare_coloring(%s) %s, without %s' % (
+                    k, pt, key[0], key[1], method, np.asarray(js[0][key]).tolist(),
+                    np.asarray(js[1][key]).tolist()))
+                break
+        if bad:
+            break
+    col = pc.model.c._coloring_info.coloring
+    return {'res': '__none__', 'ok': not bad, 'msg': '; '.join(bad)[:1500], 'sig': 'partial-coloring-degenerate-point',
+            'kind': 'nlcomp ' + method + (' colored' if col is not None else ' nocoloring')}
+
+
 def handle(c):
     k = c['kind']
     if k == 'pat':
@@ -341,6 +529,12 @@ def handle(c):
         return handle_totals(c)
     if k == 'partials':
         return handle_partials(c)
+    if k == 'totals_hist':
+        return handle_totals_hist(c)
+    if k == 'execcomp':
+        return handle_execcomp(c)
+    if k == 'nlcomp':
+        return handle_nlcomp(c)
     raise ValueError(k)
 
 
